@@ -444,6 +444,16 @@ impl IceConn {
     }
 }
 
+#[cfg(rustrtc_verif)]
+impl IceConn {
+    pub fn verif_set_remote_addr_from_selected_pair(&self, addr: SocketAddr) {
+        self.set_remote_addr_from_selected_pair(addr, "verif")
+    }
+    pub fn verif_set_remote_addr_from_signaling(&self, addr: SocketAddr) {
+        self.set_remote_addr_from_signaling(addr, "verif")
+    }
+}
+
 #[async_trait]
 impl PacketReceiver for IceConn {
     async fn receive(&self, packet: Bytes, addr: SocketAddr, marshal_buf: &mut Vec<u8>) {
